@@ -151,7 +151,16 @@ func (m *Model) msgTypeSwitches(fn *Func) []*ast.SwitchStmt {
 			return true
 		}
 		isMsgType := false
-		ast.Inspect(sw.Tag, func(x ast.Node) bool {
+		tag := ast.Node(sw.Tag)
+		// switch t { … } with t, ok := msg.Type.(pb.MsgType) (or t := msg.Type): the local stands for the field
+		if id, isID := ast.Unparen(sw.Tag).(*ast.Ident); isID {
+			if lv, ok := info.Uses[id].(*types.Var); ok && !lv.IsField() {
+				if ds, ok := fn.Defs().singleDef(lv); ok && ds.rhs != nil {
+					tag = ds.rhs
+				}
+			}
+		}
+		ast.Inspect(tag, func(x ast.Node) bool {
 			se, ok := x.(*ast.SelectorExpr)
 			if !ok {
 				return true
@@ -277,7 +286,31 @@ func (m *Model) findDispatch(r *Run) {
 		// table-driven dispatch: a map / slice literal of {message type, handler}
 		if pk := p.ByPth[pkgWS]; pk != nil {
 			arms, tbl := m.tableArms(pk, isHandlerMethod, map[string]bool{pkgHagallPB: true}, false)
+			swFn, swArms := best, bestArms
 			if len(arms) >= 5 && tbl != nil {
+				// a small switch next to the table, in a function that reads the table too (the kinds whose handlers
+				// have another signature): its arms count with the table's
+				if swFn != nil && len(swArms) > 0 {
+					reads := false
+					ast.Inspect(swFn.Body, func(n ast.Node) bool {
+						if id, ok := n.(*ast.Ident); ok && swFn.Info().Uses[id] == tbl {
+							reads = true
+						}
+						return true
+					})
+					if reads {
+						have := map[*types.Const]bool{}
+						for _, a := range arms {
+							have[a.Const] = true
+						}
+						for _, a := range swArms {
+							if !have[a.Const] {
+								arms = append(arms, a)
+							}
+						}
+					}
+				}
+				best = nil
 				// the dispatch function: the one that reads the table and consults the modules
 				for _, fn := range p.All {
 					if fn.Pkg.PkgPath != pkgWS || fn.Body == nil {
